@@ -94,7 +94,12 @@ func gen(t *rapid.T) Case {
 			}
 			s.Client.Ops = append(s.Client.Ops, prog.COp{Op: "send", Msg: msg(k, big)})
 		}
-		s.Client.Ops = append(s.Client.Ops, prog.COp{Op: "closereq"}, prog.COp{Op: "recvall"}, prog.COp{Op: "recv"}, prog.COp{Op: "recv"}, prog.COp{Op: "closeresp"})
+		if rapid.Bool().Draw(t, "sendAfterOutcome") {
+			// learn the handler's outcome first, then keep sending
+			s.Client.Ops = append(s.Client.Ops, prog.COp{Op: "recvall"}, prog.COp{Op: "send", Msg: msg(40, 10)}, prog.COp{Op: "send", Msg: msg(41, big)}, prog.COp{Op: "closereq"}, prog.COp{Op: "recv"}, prog.COp{Op: "closeresp"})
+		} else {
+			s.Client.Ops = append(s.Client.Ops, prog.COp{Op: "closereq"}, prog.COp{Op: "recvall"}, prog.COp{Op: "recv"}, prog.COp{Op: "recv"}, prog.COp{Op: "closeresp"})
+		}
 	case "cancel":
 		// a prefix of a closing program, then cancel, then arbitrary further operations
 		k := rapid.IntRange(0, 2).Draw(t, "rounds")
@@ -260,6 +265,19 @@ func check(tt *testing.T, c Case) (pbt.Info, error) {
 		}
 		if failed {
 			info.Label("send-after-handler-finished-failed-with-eof")
+		}
+		// once Receive has reported the handler's outcome the stream is over:
+		// every later Send must fail, with an error wrapping io.EOF
+		outcomeSeen := false
+		for _, o := range res.Ops {
+			if o.Op == "recv" && o.Err != nil {
+				outcomeSeen = true
+			}
+			if o.Op == "send" && outcomeSeen {
+				if o.Err == nil || !o.Err.WrapsEOF {
+					return info, fmt.Errorf("%s: a Send issued after Receive had reported the handler's outcome returned %v; want an error wrapping io.EOF", where, o.Err)
+				}
+			}
 		}
 	}
 	return info, nil
